@@ -478,6 +478,17 @@ impl EventGen for Tag {
     }
 }
 
+/// Is this a limit error (or a collection of errors including one)?
+fn is_limit_error(err: &SvgdxError) -> bool {
+    match err {
+        SvgdxError::LoopLimitError(..)
+        | SvgdxError::VarLimitError(..)
+        | SvgdxError::DepthLimitExceeded(..) => true,
+        SvgdxError::MultiError(errors) => errors.values().any(|(_, e)| is_limit_error(e)),
+        _ => false,
+    }
+}
+
 fn process_tags(
     tags: &mut Vec<(OrderIndex, Tag)>,
     context: &mut TransformerContext,
@@ -515,12 +526,20 @@ fn process_tags(
                     }
                 } else {
                     if let (Some(el), Err(err)) = (el, gen_result) {
+                        let fatal = is_limit_error(&err);
                         if let SvgdxError::MultiError(err_list) = err {
                             for (idx, (el, err)) in err_list {
                                 element_errors.insert(idx, (el, err));
                             }
                         } else {
                             element_errors.insert(idx.clone(), (el, err));
+                        }
+                        if fatal {
+                            // Exceeding a configured limit is final. Retrying would re-run
+                            // the element from whatever state the failed attempt left behind
+                            // (e.g. a `while` loop would continue from its advanced variables
+                            // and 'succeed' with the earlier iterations missing).
+                            return Err(SvgdxError::MultiError(element_errors));
                         }
                     }
                     remain.push((idx, t.clone()));
